@@ -264,7 +264,9 @@ var solvers = []solverSpec{
 	{"cvc5", func(f string, t int) []string {
 		return []string{"cvc5", fmt.Sprintf("--tlimit=%d", t*1000), "-q", f}
 	}},
-	{"z3", func(f string, t int) []string { return []string{"z3", fmt.Sprintf("-T:%d", t), f} }},
+	// z3 4.8.12 (/usr/bin/z3) is NOT used: it answers "unsat" on a small satisfiable set of the string axioms plus one
+	// extensionality instance (experiments/z3-4.8.12-unsound.smt2; z3 5.1.0 and cvc5 say unknown/sat), which let a
+	// seeded change (C05-6) verify in the second-chance pass. Found by the seed matrix.
 }
 
 type solveResult struct {
@@ -502,6 +504,35 @@ func (w *World) discharge(jobs []*job, timeoutS, workers, nsolvers int, keepDir 
 	}
 	close(chw)
 	wg.Wait()
+	// Second chance for undecided goals: an obligation no solver decided (no model, no error) is asked again, alone
+	// on the machine, with three times the time and the whole portfolio. A loaded machine must not turn a proof that
+	// normally takes a few seconds into an alarm; a goal that is really false stays undecided or sat.
+	{
+		var again []*work
+		for _, wk := range ws {
+			o := wk.js[0].o
+			if !o.Cover && o.Status == "failed" && o.Reason != "sat" && !strings.HasPrefix(o.Reason, "every solver rejected") {
+				again = append(again, wk)
+			}
+		}
+		if len(again) > 0 && len(again) <= 16 && os.Getenv("GOVC_NORETRY") == "" {
+			for _, wk := range again {
+				t := timeoutS * 3
+				r := solveOne(dir, wk.idx, wk.q, t, len(solvers))
+				if r.status != "unsat" {
+					continue
+				}
+				for _, j := range wk.js {
+					j.o.Status = "discharged"
+					j.o.Solver = r.solver
+					j.o.Time += r.time
+					j.o.Reason = ""
+					j.o.Model = ""
+					j.o.Retried = true
+				}
+			}
+		}
+	}
 	if keepDir != "" {
 		os.MkdirAll(keepDir, 0o755)
 		nfail := map[string]int{}
